@@ -5,6 +5,7 @@ import NSG.Model.Defender
 import NSG.Model.Coord
 import NSG.Model.Codec
 import NSG.Model.Config
+import NSG.Model.Scenario
 /-!
 Line-protocol driver: one JSON object per input line, one JSON object per output line.
 Only executable model definitions are used here; nothing is defaulted - an unknown op or a
@@ -316,6 +317,31 @@ def oiview (v : NSG.Config.IView) : Json := Json.mkObj [
   ("controlled", olist (fun (s : String) => Json.str s) v.controlled),
   ("data", olist (fun (p : String × List (String × String)) => Json.arr #[Json.str p.1, olist (fun (d : String × String) => Json.arr #[Json.str d.1, Json.str d.2]) p.2]) v.data)]
 
+-- scenario loader --------------------------------------------------------------------------------
+def jiface (j : Json) : R SIface := do return { ip := ← jnat (← jfield j "ip"), net := ← jnet (← jfield j "net") }
+
+def jsservice (j : Json) : R SService := do
+  return { name := ← jstr (← jfield j "name"), version := ← jstr (← jfield j "version"), isLocal := ← jbool (← jfield j "local"),
+           data := ← jlist (jpair jstr jstr) (← jfield j "data") }
+
+def jsnode (j : Json) : R SNode := do
+  return { id := ← jstr (← jfield j "id"), ifaces := ← jlist jiface (← jfield j "ifaces"), services := ← jlist jsservice (← jfield j "services") }
+
+def jsrule (j : Json) : R SRule := do
+  return { src := ← jnet (← jfield j "src"), dst := ← jnet (← jfield j "dst"), allow := ← jbool (← jfield j "allow") }
+
+def jsrouter (j : Json) : R SRouter := do
+  return { id := ← jstr (← jfield j "id"), isInternet := ← jbool (← jfield j "internet"), ifaces := ← jlist jiface (← jfield j "ifaces"),
+           rules := ← jlist jsrule (← jfield j "rules") }
+
+def jscenario (j : Json) : R Scenario := do
+  return { nodes := ← jlist jsnode (← jfield j "nodes"), routers := ← jlist jsrouter (← jfield j "routers") }
+
+def oworldFull (w : World) : Json := Json.mkObj [
+  ("hostname", olist (fun k => Json.arr #[onat k, Json.str ((alookup k w.hostname).getD "")]) (liveKeys w.hostname)),
+  ("nets", omap onet onat w.nets), ("services", omap (fun (s : String) => Json.str s) oservice w.services),
+  ("data", omap (fun (s : String) => Json.str s) odata w.data), ("fw", omap onat onat w.fw), ("blocks", omap onat onat w.blocks)]
+
 -- state ----------------------------------------------------------------------------------------
 structure DState where
   world : World := default
@@ -412,6 +438,10 @@ def handle (st : DState) (j : Json) : R (DState × Json) := do
     let role ← jstr (← jfield j "role")
     let picks ← jlist jstr (← jfield j "picks")
     return (st, Json.mkObj [("view", oiview (NSG.Config.initialView W (NSG.Config.readSection V cfg role "start_position") picks))])
+  | "load" =>
+    let sc ← jscenario (← jfield j "scenario")
+    let fw ← jbool (← jfield j "use_firewall")
+    return (st, Json.mkObj [("world", oworldFull (load sc fw))])
   | "goal" =>
     let g ← jgoal (← jfield j "goal")
     let v ← jview (← jfield j "view")
